@@ -56,6 +56,10 @@ def draw_fit(seed, i, fixtures, tier):
     rs = base.run_seed(seed, i)
     rng = base.rng_for(rs)
     fx = rng.choice(fixtures)
+    if rng.random() < 0.12:
+        # hand-written library at a complexity real generation cannot reach within budget: the parameter table is wider
+        # (5-6 columns) and only some ranks own functions with 5 parameters
+        fx = dict(runname='synth11', compl=rng.choice([11, 11, 13]), lib=None, nuniq=8, basis=None)
     P = rng.choice(P_CHOICES)
     r = rng.random()
     if r < 0.6:
@@ -64,13 +68,13 @@ def draw_fit(seed, i, fixtures, tier):
         like = dict(cls='Poisson', data_file='counts.txt', run_name='p%d' % (rs % 5), data_dir='user')
     else:
         like = dict(cls='Mock', nz=320, yfracerr=rng.choice([0.1, 0.2]))
-    if like['cls'] == 'Mock' and fx['runname'] != 'core_maths':
+    if like['cls'] == 'Mock' and fx['runname'] != 'core_maths' or fx['runname'].startswith('synth'):
         like['fn_set'] = fx['runname']
     opts = dict(test_all=dict(Niter_params=rng.choice([[2], [3], [2, 1]]), Nconv_params=[rng.choice([1, 2])],
                               log_opt=rng.random() < 0.3))
     return dict(runname=fx['runname'], compl=fx['compl'], lib_src=fx['lib'], like=like, opts=opts, P=P, seed=rs,
                 policy=draw_policy(rng, P), eager=rng.choice([0.0, 0.2, 0.5, 0.8, 1.0]), root_copy=rng.random() < 0.25,
-                data_seed=rs % 100003, npts=rng.randint(20, 40), npseed=rs % 9973, run_seed=rs, nuniq=fx['nuniq'])
+                data_seed=rs % 100003, npts=rng.randint(20, 40), npseed=rs % 9973, run_seed=rs, nuniq=fx['nuniq'], synth_seed=rs % 977)
 
 
 def draw_tile(seed, i):
